@@ -416,6 +416,33 @@ func spliceEdit(p *packages.Package, callee, caller *ast.FuncDecl, call *ast.Cal
 		}
 	}
 	asg, isAssign := stmt.(*ast.AssignStmt)
+	// `err := f(args)` (or `err = f(args)`) directly followed by `if err != nil { return err }`: the guarded
+	// form in two statements
+	var pairIf *ast.IfStmt
+	if isAssign && idx+1 < len(list) {
+		if ifs, ok := list[idx+1].(*ast.IfStmt); ok && ifs.Init == nil && ifs.Else == nil && len(ifs.Body.List) == 1 {
+			if id, isId := asg.Lhs[0].(*ast.Ident); isId {
+				be, okB := ifs.Cond.(*ast.BinaryExpr)
+				ret, okR := ifs.Body.List[0].(*ast.ReturnStmt)
+				if okB && okR && be.Op == token.NEQ && len(ret.Results) == 1 {
+					l, lok := be.X.(*ast.Ident)
+					rr, rok := be.Y.(*ast.Ident)
+					rid, ridok := ret.Results[0].(*ast.Ident)
+					if lok && rok && ridok && l.Name == id.Name && rr.Name == "nil" && rid.Name == id.Name {
+						if callee.Type.Results != nil && len(callee.Type.Results.List) == 1 {
+							if rt := info.TypeOf(callee.Type.Results.List[0].Type); rt != nil && isErrorType(rt) {
+								pairIf = ifs
+							}
+						}
+					}
+				}
+			}
+		}
+	}
+	if pairIf != nil {
+		isAssign, isGuard = false, true
+		endStmt = pairIf
+	}
 	if isAssign {
 		// `x = f(args)`: one result, stored into a temporary by every `return E` of the body
 		if hasDefer || callee.Type.Results == nil || len(callee.Type.Results.List) != 1 || len(callee.Type.Results.List[0].Names) > 0 {
@@ -696,6 +723,18 @@ func spliceEdit(p *packages.Package, callee, caller *ast.FuncDecl, call *ast.Cal
 			text := fmt.Sprintf("%s:\nfor {\n//line %s:%d%sbreak %s\n}\n//line %s:%d", label, bodyFile, bodyLine+1, body, label, file, endLine+1)
 			return inlineEdit{file: file, off: fset.Position(stmt.Pos()).Offset, end: fset.Position(endStmt.End()).Offset, text: text}, true
 		}
+	}
+	if pairIf != nil {
+		if !strings.HasPrefix(body, "\n") {
+			return inlineEdit{}, false
+		}
+		name := asg.Lhs[0].(*ast.Ident).Name
+		pre, post := "", name+" = nil\n"
+		if asg.Tok == token.DEFINE {
+			pre, post = "var "+name+" error; _ = "+name+"; ", ""
+		}
+		text := fmt.Sprintf("%s{\n//line %s:%d%s}\n%s//line %s:%d", pre, bodyFile, bodyLine+1, body, post, file, endLine+1)
+		return inlineEdit{file: file, off: fset.Position(stmt.Pos()).Offset, end: fset.Position(endStmt.End()).Offset, text: text}, true
 	}
 	text := "{" + body + "}"
 	if strings.HasPrefix(body, "\n") {
